@@ -1010,4 +1010,49 @@ example : authorityValidateF [caCert "int" "root" "k1" "k0" {}]
     [caCert "root" "root" "k0" "" { xDNS := [s "bad.example.com"] } false] { dns := [s "x.bad.example.com"] }
     = .allow := by decide
 
+/-! ## 10. Where the engine is consulted (table re-derived from the source on every run) -/
+
+/-- **all_paths**: in package `authority` exactly three functions reach the CAS for an X.509
+    leaf (`signX509`, `renewContext`, `GetTLSCertificate`); in each of them a checked
+    name-constraints validation comes first in source order — directly, or through the gate
+    `isAllowedToSignX509Certificate`, whose own first step is the checked validation. -/
+theorem all_paths :
+    (∀ p ∈ issuePaths, guarded p.2 = true) ∧
+    ((issuePaths.filter fun p => p.2.any Step.isCas).map (·.1) = ["GetTLSCertificate", "renewContext", "signX509"]) ∧
+    (issuePaths.find? (·.1 = "isAllowedToSignX509Certificate")).map (·.2) = some [.validate true] ∧
+    (∀ p ∈ issuePaths, p.2.any (· == .gate false) = false ∧ p.2.any (· == .validate false) = false) := by
+  decide
+
+/-- `guarded` means what it says: a CAS step at position `i` has a checked step before it -/
+theorem guarded_spec (l : List Step) (h : guarded l = true) :
+    ∀ pre st post, l = pre ++ st :: post → st.isCas = true → ∃ c ∈ pre, c.isCheck = true := by
+  induction l with
+  | nil => intro pre st post e; simp at e
+  | cons a as ih =>
+    intro pre st post e hc
+    unfold guarded at h
+    cases hk : a.isCheck
+    · simp [hk] at h
+      cases pre with
+      | nil =>
+        simp at e
+        rw [← e.1] at hc
+        rw [hc] at h; simp at h
+      | cons b bs =>
+        simp at e
+        obtain ⟨c, hcm, hck⟩ := ih h.2 bs st post e.2 hc
+        exact ⟨c, List.mem_cons_of_mem _ hcm, hck⟩
+    · cases pre with
+      | nil =>
+        simp at e
+        rw [← e.1] at hc
+        cases a <;> simp [Step.isCas, Step.isCheck] at hc hk
+      | cons b bs =>
+        simp at e
+        exact ⟨a, by rw [e.1]; exact List.mem_cons_self, hk⟩
+
+/-- an unguarded order is recognised (what a moved call site would look like) -/
+example : guarded [.casCreate, .validate true] = false := by decide
+example : guarded [.validate false, .casCreate] = false := by decide
+
 end Verif.Constraints
